@@ -244,6 +244,7 @@ pub fn run(ctx: &Ctx) {
         }
     }
     extra.extend(gen::long_name_packets());
+    extra.extend(gen::many_and_sized_packets());
     extra.push(gen::big_shared_packet(20, 1600));
     extra.push(gen::big_shared_packet(120, 500));
     space.extend(extra);
